@@ -5,7 +5,6 @@ HERE = os.path.dirname(os.path.abspath(__file__))
 ids = [json.loads(l)['id'] for l in open(os.path.join(HERE, 'properties.jsonl'))]
 
 NA = {
- "C06": "equality of Seal's output with SP 800-38D for all keys, nonces, lengths and counter values is a statement about values computed by ~14k vector instructions; no necessary structural clause of it is stable under behaviour-preserving edits. Its shape parts are decided under C07, C10, C11, C18 (DESIGN.md section 6)",
 }
 
 # id -> (level, technique, text, note, design_ref)
